@@ -18,6 +18,12 @@ step:
 The generator (profile options copy / rm_copy of _hist.py) also repeats stored lines that carry no identifier
 (E/G/O/U '*', F, C without ID: two lines with exactly the same text are legal) and removes one of several lines
 with the same text by instance; the model removes one record of that text.
+Profile option retag of _hist.py (2 of 98 mutation draws): a tag (xx integer / yy string) is removed and then set again,
+on the same line, to a value of the other type (string where it held an integer and vice versa): the history denotes
+the text in which the tag has the datatype the new value gets when a tag is created (xx:Z:w3, yy:i:5), whatever the
+removed tag was.  The tag is removed with delete(tag) (75%) or with set(tag, None) (25%), the two documented ways
+(doc/tutorial/tags.rst).  A failure at the set that follows a removal by set(tag, None) has the signature prefix
+"after-setnone-".
 
 Dependency table used by the model (doc/tutorial/references.rst + the property text):
   GFA1  removed segment -> its L (and the P over them), its C, the P through it;  removed link -> the P over it
@@ -30,7 +36,9 @@ the step's outcome as not pinned down by the documentation ("ambiguous").
 
 Signatures: text-differs-after-<op>, reparse-differs-after-<op>, neighbourhood-holds-removed-line-after-<op>,
 neighbourhood-differs-after-<op>, text-unwritable-after-<op>, foreign-exception
-(op in {add-<RT>, rm, rmline-<RT>, disconnect, rename, settag, deltag}).  On the pinned tree:
+(op in {add-<RT>, rm, rmline-<RT>, disconnect, rename, settag, deltag}); after-setnone-text-differs-after-settag,
+after-setnone-text-unwritable-after-settag (the tag set had been removed by set(tag, None): the line keeps the datatype
+of the removed tag, so the new value is written under the old datatype or the line cannot be written).  On the pinned tree:
 text-differs-after-rm/rmline-S|L|E|O/disconnect = DESIGN 7 #1 (half of the dependants survive),
 text-differs-after-rm/rmline-G = #2 (gap stays listed in the set), foreign-exception = #10 (one-segment path).
 
@@ -40,8 +48,8 @@ NOT CHECKED:
   * histories after: renaming onto an identifier in use (incl. the documented U/U, O/O merge by rename) or
     onto an identifier that is only mentioned (placeholder); removing a link under a path when a parallel
     link could carry the same path step; a gap that is the only item of a set (the set would be left empty);
-    groups that list themselves; a repeated link that carries tags or an ID; tag edits that change a tag's
-    datatype; deleting the ID tag of an L/C line; O groups listing a gap (the property speaks of sets only).
+    groups that list themselves; a repeated link that carries tags or an ID; setting a tag that the line has
+    to a value of another type (a tag that was removed first is checked, see above); deleting the ID tag of an L/C line; O groups listing a gap (the property speaks of sets only).
   * placeholders (virtual lines) are filtered from str(g) before comparing; orphan placeholders that survive
     the removal of their last referrer are therefore not reported.
   * header lines are compared through the reparse only (the way several H lines are merged is not part of
@@ -60,11 +68,12 @@ RULE = ("exhaustive: every history of length <= 4 (quick) / <= 5 (thorough) over
         "graphs over 4-6 segment names: all record types, lines arriving before the lines they mention, fan-out > 1 "
         "in every collection, repeated lines without identifier (8% of additions once one exists) and removal of one of "
         "several equal lines by instance, nested and multi-line groups, rm by name and by instance, disconnect, rename, "
-        "set/delete tag; 85% of histories end by defining everything still undefined. Non-trivial: at least one "
+        "set/delete tag, remove a tag (delete(tag) 75% / set(tag, None) 25%) and set it again to a value of the other type "
+        "(2% of the mutation draws); 85% of histories end by defining everything still undefined. Non-trivial: at least one "
         "rm/disconnect/rename in a history with at least two additions. Distinct by case hash.")
 
-PROF = H.profile(p_fail=0.04, gap_in_o=False, close=0.85, copy=0.08, rm_copy=0.5,
-                 ops={"add": 46, "rm": 14, "rmline": 7, "disconnect": 7, "rename": 10, "settag": 8, "deltag": 4})
+PROF = H.profile(p_fail=0.04, gap_in_o=False, close=0.85, copy=0.08, rm_copy=0.5, retag_setnone=0.25,
+                 ops={"add": 46, "rm": 14, "rmline": 7, "disconnect": 7, "rename": 10, "settag": 8, "deltag": 4, "retag": 2})
 CASE_TIMEOUT = 60
 
 
@@ -143,6 +152,7 @@ def oracle(case):
     g = H.new_gfa(case)
     m = H.TextModel(v)
     hist = case["hist"]
+    setnone = set()  # (id of the line, tag): the tag was removed with set(tag, None) and not set since
     for k, step in enumerate(hist):
         line, sel = None, None
         tgt = H.step_target(step)
@@ -179,13 +189,20 @@ def oracle(case):
             STATS["stop:" + st] += 1
             return []
         STATS["compared"] += 1
+        kind, pre = H.step_kind(step), ""
+        if step[0] == "settag" and line is not None:
+            if step[3] is None:
+                setnone.add((id(line), step[2]))
+            elif (id(line), step[2]) in setnone:
+                setnone.discard((id(line), step[2]))
+                pre = "after-setnone-"  # own signature: the tag was removed by set(tag, None), not by delete(tag)
         try:
             got = real_text(g, v, True)
         except Exception as e:
-            return ["text-unwritable-after-%s: %s [step %d %r]" % (H.step_kind(step), e.__class__.__name__, k, step)]
+            return ["%stext-unwritable-after-%s: %s [step %d %r]" % (pre, kind, e.__class__.__name__, k, step)]
         exp = m.lines(drop_h=True)
         if got != exp:
-            return ["text-differs-after-%s: %s [step %d %r]" % (H.step_kind(step), _diff(got, exp), k, step)]
+            return ["%stext-differs-after-%s: %s [step %d %r]" % (pre, kind, _diff(got, exp), k, step)]
         nb = neighbourhood(g, m, v)
         if nb is not None:
             return ["%s-after-%s: %s [step %d %r]" % (nb[0], H.step_kind(step), nb[1], k, step)]
